@@ -228,3 +228,39 @@ PROPS["C04"] = {
     "thorough": [{"variant": "default", "cases": 600000, "timeout": 3000}, {"variant": "checks", "cases": 60000, "timeout": 3000}],
     "floors": {"any": {"plantings_judged": 3000, "plantings_with_repeated_variable": 200, "plantings_present_only_through_union": 800, "plantings_with_symmetric_class": 800}},
 }
+
+PROPS["C03"] = {
+    "rule": "cases: a random start term over LArith (num/var/add/mul/sum-binder/let-binder, free slots p and q, depth 2-4, a third with shadowing binders), a random subset of 2-8 rules from the "
+            "pool valid in the chosen model (M1 = F_7 with sums over {0,1,2}; M2 = F_3 with whole-field sums; conditional rules, rules moving terms under binders, re-binding, let push-down, "
+            "b[x := t] right sides), 1-5 iterations by apply_rewrites or Runner, SynExprSubst or ExtractionSubst. After every iteration every e-node of every class (enodes and enodes_applied) is "
+            "evaluated against the class value (own least-rank representative) under all environments when p^slots <= 343, else 10 random ones; redundant slots get independent random values; the "
+            "start term's value must equal its class's. Non-trivial = distinct (term, rule set, model) run in which a rule mentioning a slot was in the set and the e-graph grew.",
+    "assumptions": ["the rule pools contain only rules valid in their model (the unconditional sum-mul-out rule is kept outside as the sensitivity probe: vworker C03 bad=1 must report violations)",
+                    "a fault invisible in both finite models for all sampled environments is not seen"],
+    "quick": [{"variant": "default", "cases": 500, "timeout": 900}, {"variant": "explanations", "cases": 120, "timeout": 900}],
+    "thorough": [{"variant": "default", "cases": 40000, "params": {"case_timeout": 120}, "timeout": 3400}, {"variant": "checks", "cases": 3000, "params": {"case_timeout": 120}, "timeout": 3400}, {"variant": "explanations", "cases": 3000, "params": {"case_timeout": 120}, "timeout": 3400}],
+    "floors": {"any": {"runs": 300, "enode_evaluations": 200000, "root_evaluations": 10000, "runs_with_subst_rule": 30, "runs_with_conditional_rule": 100, "runs_extraction_subst": 100}},
+}
+PROPS["C14"] = {
+    "rule": "cases: histories of 3-10 public calls over LArith with the product analysis (min size, constant value in F_7 with a modify hook that inserts the constant and unions, min depth): "
+            "insertions, unions with model-equal variants (a parent over the bigger variant is inserted first so the union lowers a child's datum afterwards), rewrite iterations with model-valid rules. "
+            "After every call, for every live class: datum == join of make over eg.enodes with current child data; merged handles share one datum; a union's result is below both sides; data never "
+            "move up; min-size == own Bellman-Ford minimum == Extractor<AstSize> best cost; constant datum == model value under random environments; a class with a ground e-node has a constant; "
+            "no merge conflict was recorded; work lists drained. Non-trivial = distinct history in which modify ran and a union or rewrite happened.",
+    "assumptions": ["the analyses are semilattice joins (min / agreeing constants); make/merge/modify calls are counted by the analysis itself"],
+    "quick": [{"variant": "default", "cases": 800, "timeout": 900}],
+    "thorough": [{"variant": "default", "cases": 120000, "params": {"case_timeout": 120}, "timeout": 3400}, {"variant": "checks", "cases": 8000, "params": {"case_timeout": 120}, "timeout": 3400}],
+    "floors": {"any": {"class_checks": 20000, "const_vs_model": 20000, "modify_calls": 3000, "runs_where_union_lowered_a_datum": 100}},
+}
+PROPS["C15"] = {
+    "rule": "cases: a start e-graph (LSym history incl. a three-slot leaf with one known symmetry under binders, or an LArith term), a random rule subset, 0-2 monitored apply_rewrites calls, then one "
+            "run by Runner or run_eqsat with iteration limit 0-6, node limit 1-60 or 400, a hook failing at a chosen iteration (25%), time limit one hour (or 0 in 10% of the runs). Rule "
+            "applications are counted by a sentinel rewrite. Judged: apply_rewrites == false => fingerprint (node count, live ids, (slots, symmetries) per class, equality matrix and symmetry "
+            "count of tracked handles) unchanged; Saturated => one more application changes nothing and every match of every unconditional syntactic rule has equal sides; IterationLimit => "
+            ">= limit+1 applications; always <= limit+2 applications; NodeLimit => nodes > limit; Other(e) <=> the hook returned e; TimeLimit only with limit 0; report.egraph_nodes == node count. "
+            "Non-trivial = distinct (setup, limits) run.",
+    "assumptions": ["wall-clock time is never a verdict: the time limit is out of reach except in the limit-0 lane, where TimeLimit is always true"],
+    "quick": [{"variant": "default", "cases": 2500, "timeout": 900}],
+    "thorough": [{"variant": "default", "cases": 250000, "params": {"case_timeout": 120}, "timeout": 3400}, {"variant": "checks", "cases": 20000, "params": {"case_timeout": 120}, "timeout": 3400}],
+    "floors": {"any": {"runs": 1500, "stop_saturated": 500, "stop_iteration_limit": 40, "stop_node_limit": 15, "stop_other": 60, "apply_rewrites_returned_false": 300, "saturated_matches_checked": 500}},
+}
